@@ -19,74 +19,74 @@ use write_fonts::tables::loca::LocaFormat;
 use write_fonts::FontBuilder;
 
 // ---- opcodes -----------------------------------------------------------------------------------
-const SVTCA_Y: u8 = 0x00;
-const SVTCA_X: u8 = 0x01;
-const SPVTL: u8 = 0x06; // +a
-const SFVTL: u8 = 0x08; // +a
-const SPVFS: u8 = 0x0A;
-const SFVFS: u8 = 0x0B;
-const SFVTPV: u8 = 0x0E;
-const ISECT: u8 = 0x0F;
-const SRP1: u8 = 0x11;
-const SRP2: u8 = 0x12;
-const SZP0: u8 = 0x13;
-const SZP1: u8 = 0x14;
-const SMD: u8 = 0x1A;
-const SCVTCI: u8 = 0x1D;
-const SSWCI: u8 = 0x1E;
-const SSW: u8 = 0x1F;
-const ALIGNPTS: u8 = 0x27;
-const UTP: u8 = 0x29;
-const MDAP: u8 = 0x2E; // +r
-const IUP_Y: u8 = 0x30;
-const IUP_X: u8 = 0x31;
-const SHP: u8 = 0x32; // +a
-const SHC: u8 = 0x34; // +a
-const SHZ: u8 = 0x36; // +a
-const SHPIX: u8 = 0x38;
-const IP: u8 = 0x39;
-const MSIRP: u8 = 0x3A; // +a
-const ALIGNRP: u8 = 0x3C;
-const MIAP: u8 = 0x3E; // +r
-const NPUSHB: u8 = 0x40;
-const NPUSHW: u8 = 0x41;
-const WCVTP: u8 = 0x44;
-const GC: u8 = 0x46; // +a
-const SCFS: u8 = 0x48;
-const MD: u8 = 0x49; // +a
-const MPPEM: u8 = 0x4B;
-const MPS: u8 = 0x4C;
-const FLIPON: u8 = 0x4D;
-const FLIPOFF: u8 = 0x4E;
-const GT: u8 = 0x52;
-const IF: u8 = 0x58;
-const EIF: u8 = 0x59;
-const DELTAP1: u8 = 0x5D;
-const SDB: u8 = 0x5E;
-const SDS: u8 = 0x5F;
-const ROUND: u8 = 0x68; // +ab
-const NROUND: u8 = 0x6C; // +ab
-const WCVTF: u8 = 0x70;
-const DELTAP2: u8 = 0x71;
-const DELTAP3: u8 = 0x72;
-const DELTAC1: u8 = 0x73;
-const DELTAC2: u8 = 0x74;
-const DELTAC3: u8 = 0x75;
-const SROUND: u8 = 0x76;
-const S45ROUND: u8 = 0x77;
-const FLIPPT: u8 = 0x80;
-const FLIPRGON: u8 = 0x81;
-const FLIPRGOFF: u8 = 0x82;
-const SCANCTRL: u8 = 0x85;
-const SDPVTL: u8 = 0x86; // +a
-const GETINFO: u8 = 0x88;
-const SCANTYPE: u8 = 0x8D;
-const INSTCTRL: u8 = 0x8E;
-const MDRP: u8 = 0xC0; // +abcde
-const MIRP: u8 = 0xE0; // +abcde
+pub(crate) const SVTCA_Y: u8 = 0x00;
+pub(crate) const SVTCA_X: u8 = 0x01;
+pub(crate) const SPVTL: u8 = 0x06; // +a
+pub(crate) const SFVTL: u8 = 0x08; // +a
+pub(crate) const SPVFS: u8 = 0x0A;
+pub(crate) const SFVFS: u8 = 0x0B;
+pub(crate) const SFVTPV: u8 = 0x0E;
+pub(crate) const ISECT: u8 = 0x0F;
+pub(crate) const SRP1: u8 = 0x11;
+pub(crate) const SRP2: u8 = 0x12;
+pub(crate) const SZP0: u8 = 0x13;
+pub(crate) const SZP1: u8 = 0x14;
+pub(crate) const SMD: u8 = 0x1A;
+pub(crate) const SCVTCI: u8 = 0x1D;
+pub(crate) const SSWCI: u8 = 0x1E;
+pub(crate) const SSW: u8 = 0x1F;
+pub(crate) const ALIGNPTS: u8 = 0x27;
+pub(crate) const UTP: u8 = 0x29;
+pub(crate) const MDAP: u8 = 0x2E; // +r
+pub(crate) const IUP_Y: u8 = 0x30;
+pub(crate) const IUP_X: u8 = 0x31;
+pub(crate) const SHP: u8 = 0x32; // +a
+pub(crate) const SHC: u8 = 0x34; // +a
+pub(crate) const SHZ: u8 = 0x36; // +a
+pub(crate) const SHPIX: u8 = 0x38;
+pub(crate) const IP: u8 = 0x39;
+pub(crate) const MSIRP: u8 = 0x3A; // +a
+pub(crate) const ALIGNRP: u8 = 0x3C;
+pub(crate) const MIAP: u8 = 0x3E; // +r
+pub(crate) const NPUSHB: u8 = 0x40;
+pub(crate) const NPUSHW: u8 = 0x41;
+pub(crate) const WCVTP: u8 = 0x44;
+pub(crate) const GC: u8 = 0x46; // +a
+pub(crate) const SCFS: u8 = 0x48;
+pub(crate) const MD: u8 = 0x49; // +a
+pub(crate) const MPPEM: u8 = 0x4B;
+pub(crate) const MPS: u8 = 0x4C;
+pub(crate) const FLIPON: u8 = 0x4D;
+pub(crate) const FLIPOFF: u8 = 0x4E;
+pub(crate) const GT: u8 = 0x52;
+pub(crate) const IF: u8 = 0x58;
+pub(crate) const EIF: u8 = 0x59;
+pub(crate) const DELTAP1: u8 = 0x5D;
+pub(crate) const SDB: u8 = 0x5E;
+pub(crate) const SDS: u8 = 0x5F;
+pub(crate) const ROUND: u8 = 0x68; // +ab
+pub(crate) const NROUND: u8 = 0x6C; // +ab
+pub(crate) const WCVTF: u8 = 0x70;
+pub(crate) const DELTAP2: u8 = 0x71;
+pub(crate) const DELTAP3: u8 = 0x72;
+pub(crate) const DELTAC1: u8 = 0x73;
+pub(crate) const DELTAC2: u8 = 0x74;
+pub(crate) const DELTAC3: u8 = 0x75;
+pub(crate) const SROUND: u8 = 0x76;
+pub(crate) const S45ROUND: u8 = 0x77;
+pub(crate) const FLIPPT: u8 = 0x80;
+pub(crate) const FLIPRGON: u8 = 0x81;
+pub(crate) const FLIPRGOFF: u8 = 0x82;
+pub(crate) const SCANCTRL: u8 = 0x85;
+pub(crate) const SDPVTL: u8 = 0x86; // +a
+pub(crate) const GETINFO: u8 = 0x88;
+pub(crate) const SCANTYPE: u8 = 0x8D;
+pub(crate) const INSTCTRL: u8 = 0x8E;
+pub(crate) const MDRP: u8 = 0xC0; // +abcde
+pub(crate) const MIRP: u8 = 0xE0; // +abcde
 
 /// round-state setting instructions: RTG, RTHG, RTDG, RDTG, RUTG, ROFF
-const ROUND_STATES: [(u8, &str); 6] = [
+pub(crate) const ROUND_STATES: [(u8, &str); 6] = [
     (0x18, "RTG"),
     (0x19, "RTHG"),
     (0x3D, "RTDG"),
@@ -96,7 +96,7 @@ const ROUND_STATES: [(u8, &str); 6] = [
 ];
 
 /// push a list of values (bytes when all fit, words otherwise); the LAST value ends on top of the stack
-fn push(code: &mut Vec<u8>, vals: &[i32]) {
+pub(crate) fn push(code: &mut Vec<u8>, vals: &[i32]) {
     if vals.is_empty() {
         return;
     }
@@ -121,7 +121,7 @@ fn push(code: &mut Vec<u8>, vals: &[i32]) {
     }
 }
 
-fn axis_op(axis: usize) -> u8 {
+pub(crate) fn axis_op(axis: usize) -> u8 {
     if axis == 0 {
         SVTCA_X
     } else {
@@ -132,17 +132,17 @@ fn axis_op(axis: usize) -> u8 {
 /// Touch point `p` along the current axis without moving it (MDAP[0]). In FreeType's v40 backward
 /// compatibility mode SHPIX only moves points that are already touched in y, so every program that
 /// observes a computed value through SHPIX touches its target first.
-fn touch(code: &mut Vec<u8>, p: i32) {
+pub(crate) fn touch(code: &mut Vec<u8>, p: i32) {
     push(code, &[p]);
     code.push(MDAP);
 }
 
-fn iup(code: &mut Vec<u8>) {
+pub(crate) fn iup(code: &mut Vec<u8>) {
     code.push(IUP_Y);
     code.push(IUP_X);
 }
 
-type Pt = (i16, i16, bool);
+pub(crate) type Pt = (i16, i16, bool);
 
 pub struct HGlyph {
     pub class: String,
@@ -150,10 +150,12 @@ pub struct HGlyph {
     pub code: Vec<u8>,
     /// raw `glyf` bytes of a composite glyph with its own instructions (points/code unused then)
     pub raw_composite: Option<Vec<u8>>,
+    /// optional second contour (multi-contour families)
+    pub contour2: Vec<Pt>,
 }
 
 /// The two general geometries (5 points, one contour).
-fn geometries() -> Vec<Vec<Pt>> {
+pub(crate) fn geometries() -> Vec<Vec<Pt>> {
     vec![
         vec![
             (50, 0, true),
@@ -178,7 +180,7 @@ pub const CVT: [i16; 20] = [
     400, 399, 410, 367, -400, 1, 499, 501, // 12..=19 distances / near-geometry values
 ];
 
-const BOUNDARY_F26: [i32; 11] = [0, 1, -1, 31, 32, 33, 63, 64, 65, -32, -33];
+pub(crate) const BOUNDARY_F26: [i32; 11] = [0, 1, -1, 31, 32, 33, 63, 64, 65, -32, -33];
 
 pub fn glyphs() -> Vec<HGlyph> {
     let mut out: Vec<HGlyph> = vec![];
@@ -189,6 +191,7 @@ pub fn glyphs() -> Vec<HGlyph> {
             points: points.to_vec(),
             code,
             raw_composite: None,
+            contour2: vec![],
         })
     };
     // glyph 0: empty
@@ -838,6 +841,7 @@ pub fn glyphs() -> Vec<HGlyph> {
             points: geo.clone(),
             code: code.clone(),
             raw_composite: None,
+            contour2: vec![],
         });
     }
     // composite flag bits
@@ -914,11 +918,14 @@ pub fn glyphs() -> Vec<HGlyph> {
                         points: vec![],
                         code: prog.clone(),
                         raw_composite: Some(g),
+                        contour2: vec![],
                     });
                 }
             }
         }
     }
+    // F15… second-generation families (functions, control flow, stack, storage, zones, phantoms, …)
+    crate::synth_hint2::more(&mut out);
     out
 }
 
@@ -1032,7 +1039,17 @@ pub fn build_font(upem: u16, prep: &[u8], glyphs: &[HGlyph]) -> Vec<u8> {
             .into();
         let mut sg = SimpleGlyph {
             bbox: Bbox::default(),
-            contours: vec![contour],
+            contours: if g.contour2.is_empty() {
+                vec![contour]
+            } else {
+                let c2: Contour = g
+                    .contour2
+                    .iter()
+                    .map(|(x, y, on)| CurvePoint::new(*x, *y, *on))
+                    .collect::<Vec<_>>()
+                    .into();
+                vec![contour, c2]
+            },
             instructions: g.code.clone(),
         };
         sg.recompute_bounding_box();
@@ -1081,17 +1098,17 @@ pub fn build_font(upem: u16, prep: &[u8], glyphs: &[HGlyph]) -> Vec<u8> {
     maxp.extend_from_slice(&0x0001_0000u32.to_be_bytes());
     for v in [
         n as u16,
-        8,   // maxPoints
-        1,   // maxContours
+        16,  // maxPoints
+        2,   // maxContours
         16,  // maxCompositePoints
         4,   // maxCompositeContours
         2,   // maxZones
         8,   // maxTwilightPoints
         8,   // maxStorage
-        4,   // maxFunctionDefs
-        0,   // maxInstructionDefs
+        16,  // maxFunctionDefs
+        2,   // maxInstructionDefs
         64,  // maxStackElements
-        (max_ins.max(prep.len()) + 8) as u16,
+        (max_ins.max(prep.len()).max(crate::synth_hint2::fpgm().len()) + 8) as u16,
         4, // maxComponentElements
         2, // maxComponentDepth
     ] {
@@ -1107,6 +1124,7 @@ pub fn build_font(upem: u16, prep: &[u8], glyphs: &[HGlyph]) -> Vec<u8> {
     fb.add_raw(Tag::new(b"maxp"), maxp);
     fb.add_raw(Tag::new(b"hmtx"), hmtx);
     fb.add_raw(Tag::new(b"cvt "), cvt);
+    fb.add_raw(Tag::new(b"fpgm"), crate::synth_hint2::fpgm());
     if !prep.is_empty() {
         fb.add_raw(Tag::new(b"prep"), prep.to_vec());
     }
